@@ -186,6 +186,7 @@ def multi_aba(rng):
         'has': {'name': 'has', 'keys': ['k1', 'k2', 'k3', 'k4']}, 'get': {'name': 'get', 'keys': ['k1', 'k3', 'k4']},
         'meta': {'name': 'meta', 'keys': ['k2', 'k3', 'k4']}, 'list': {'name': 'list'}, 'listpart': {'name': 'listpart'},
         'has1e': {'name': 'has', 'keys': ['k4'], 'single': True}, 'get1e': {'name': 'get', 'keys': ['k4'], 'single': True},
+        'getall': {'name': 'get', 'keys': ['k1', 'k2', 'k3', 'k5', 'k9'], 'report_missing': True},
         'has1': {'name': 'has', 'keys': ['k3'], 'single': True}, 'get1': {'name': 'get', 'keys': ['k3'], 'single': True},
         'get1s': {'name': 'get', 'keys': ['k3'], 'single': 'stream'}, 'meta1': {'name': 'meta', 'keys': ['k3'], 'single': True},
     }
@@ -197,6 +198,10 @@ def multi_aba(rng):
                            {'name': 'clean', 'h': 'hp', 'vacuum': False}],
         'clean-vacuum': [{'name': 'clean', 'h': 'hp', 'vacuum': True}],
         'add': [{'name': 'add', 'h': 'h2', 'keys': ['k3'], 'via': 'bytes'}],
+        # two new objects that end up in different packs (small pack target): the retry pass finds them in several packs
+        'add2-pack-clean': [{'name': 'add', 'h': 'h2', 'keys': ['k3'], 'via': 'bytes'}, {'name': 'add', 'h': 'h2', 'keys': ['k5'], 'via': 'bytes'},
+                            {'name': 'pack', 'h': 'hp', 'mode': 'NO', 'perpack': False, 'validate': True},
+                            {'name': 'clean', 'h': 'hp', 'vacuum': False}],
         # the empty object alone: packing it appends no byte to the pack
         'add-empty-pack-pp': [{'name': 'add', 'h': 'h2', 'keys': ['k4'], 'via': 'bytes'},
                               {'name': 'pack', 'h': 'hp', 'mode': 'NO', 'perpack': True, 'validate': True}],
